@@ -401,6 +401,42 @@ def M44.fastMinor_013_123 {α : Type} [Add α] [Sub α] [Mul α] (a : M44 α) : 
   (((a.x01 * ((a.x12 * a.x33) - (a.x13 * a.x32))) + (a.x02 * ((a.x13 * a.x31) - (a.x11 * a.x33)))) + (a.x03 * ((a.x11 * a.x32) - (a.x12 * a.x31))))
 
 /-- extracted from the C++ template at T = Sym; 1 path(s) -/
+def M33.fastMinor_21_20 {α : Type} [Sub α] [Mul α] (a : M33 α) : α :=
+  ((a.x22 * a.x10) - (a.x20 * a.x12))
+
+/-- extracted from the C++ template at T = Sym; 1 path(s) -/
+def M33.fastMinor_00_11 {α : Type} [Sub α] [Mul α] (a : M33 α) : α :=
+  let t524 := (a.x01 * a.x01)
+  (t524 - t524)
+
+/-- extracted from the C++ template at T = Sym; 1 path(s) -/
+def M33.fastMinor_20_02 {α : Type} [Sub α] [Mul α] (a : M33 α) : α :=
+  ((a.x20 * a.x02) - (a.x22 * a.x00))
+
+/-- extracted from the C++ template at T = Sym; 1 path(s) -/
+def M44.fastMinor_321_210 {α : Type} [Add α] [Sub α] [Mul α] (a : M44 α) : α :=
+  (((a.x32 * ((a.x21 * a.x10) - (a.x20 * a.x11))) + (a.x31 * ((a.x20 * a.x12) - (a.x22 * a.x10)))) + (a.x30 * ((a.x22 * a.x11) - (a.x21 * a.x12))))
+
+/-- extracted from the C++ template at T = Sym; 1 path(s) -/
+def M44.fastMinor_002_133 {α : Type} [Add α] [Sub α] [Mul α] (a : M44 α) : α :=
+  let t440 := (a.x01 * a.x23)
+  let t538 := (a.x03 * a.x21)
+  let t543 := (a.x03 * a.x23)
+  (((a.x01 * (t543 - t543)) + (a.x03 * (t538 - t440))) + (a.x03 * (t440 - t538)))
+
+/-- extracted from the C++ template at T = Sym; 1 path(s) -/
+def M44.fastMinor_023_012 {α : Type} [Add α] [Sub α] [Mul α] (a : M44 α) : α :=
+  (((a.x00 * ((a.x21 * a.x32) - (a.x22 * a.x31))) + (a.x01 * ((a.x22 * a.x30) - (a.x20 * a.x32)))) + (a.x02 * ((a.x20 * a.x31) - (a.x21 * a.x30))))
+
+/-- extracted from the C++ template at T = Sym; 1 path(s) -/
+def M44.fastMinor_013_012 {α : Type} [Add α] [Sub α] [Mul α] (a : M44 α) : α :=
+  (((a.x00 * ((a.x11 * a.x32) - (a.x12 * a.x31))) + (a.x01 * ((a.x12 * a.x30) - (a.x10 * a.x32)))) + (a.x02 * ((a.x10 * a.x31) - (a.x11 * a.x30))))
+
+/-- extracted from the C++ template at T = Sym; 1 path(s) -/
+def M44.fastMinor_012_012 {α : Type} [Add α] [Sub α] [Mul α] (a : M44 α) : α :=
+  (((a.x00 * ((a.x11 * a.x22) - (a.x12 * a.x21))) + (a.x01 * ((a.x12 * a.x20) - (a.x10 * a.x22)))) + (a.x02 * ((a.x10 * a.x21) - (a.x11 * a.x20))))
+
+/-- extracted from the C++ template at T = Sym; 1 path(s) -/
 def Quat.mulAssignSelf {α : Type} [Add α] [Sub α] [Mul α] (a : Quat α) : (Quat α) :=
   ⟨((a.r * a.r) - (((a.v.x * a.v.x) + (a.v.y * a.v.y)) + (a.v.z * a.v.z))), ⟨(((a.r * a.v.x) + (a.v.x * a.r)) + ((a.v.y * a.v.z) - (a.v.z * a.v.y))), (((a.r * a.v.y) + (a.v.y * a.r)) + ((a.v.z * a.v.x) - (a.v.x * a.v.z))), (((a.r * a.v.z) + (a.v.z * a.r)) + ((a.v.x * a.v.y) - (a.v.y * a.v.x)))⟩⟩
 
